@@ -92,6 +92,28 @@ func dice(rng *rng.RNG) func(int) int {
 	}
 }
 
+// checkedRandomRange is randomRange but returns an error instead of panicking when bounds are invalid
+func checkedRandomRange(rng *rng.RNG) func(int, int) (int, error) {
+	f := randomRange(rng)
+	return func(lowerBound, upperBound int) (int, error) {
+		if span := upperBound - lowerBound; upperBound < lowerBound || span < 0 || span == math.MaxInt {
+			return 0, fmt.Errorf("invalid bounds [%d, %d]", lowerBound, upperBound)
+		}
+		return f(lowerBound, upperBound), nil
+	}
+}
+
+// checkedDice is dice but returns an error instead of panicking when the number of sides is invalid
+func checkedDice(rng *rng.RNG) func(int) (int, error) {
+	f := dice(rng)
+	return func(sides int) (int, error) {
+		if sides < 1 {
+			return 0, fmt.Errorf("invalid number of sides %d", sides)
+		}
+		return f(sides), nil
+	}
+}
+
 // round rounds f to the nearest integer
 func round(f float64) float64 {
 	return math.Round(f)
